@@ -30,37 +30,64 @@ macro_rules! probe_val {
     };
 }
 
-// call counters: CALLS[stage][tag] during the library run, EXP[stage][tag] during the oracle run
+// call counters: HS.calls[stage][tag] during the library run, HS.exp[stage][tag] during the oracle run.
+// One tagged static for all harness-side state (see the note on `model::S`).
 const Z8: AtomicU8 = AtomicU8::new(0);
 const ZROW: [AtomicU8; 8] = [Z8; 8];
-pub static CALLS: [[AtomicU8; 8]; 5] = [ZROW; 5];
-pub static EXP: [[AtomicU8; 8]; 5] = [ZROW; 5];
-pub static ORACLE: AtomicBool = AtomicBool::new(false);
+pub struct HarnessState {
+    pub tag: std::sync::atomic::AtomicU64,
+    pub calls: [[AtomicU8; 8]; 5],
+    pub exp: [[AtomicU8; 8]; 5],
+    pub oracle: AtomicBool,
+    pub last_tag: [AtomicU8; 5],
+    pub order_bad: AtomicBool,
+    pub drops: [AtomicU8; DROP_SLOTS],
+    pub next_id: AtomicU8,
+}
+pub const DROP_SLOTS: usize = 3 * @MAXN@ + 2;
+pub static HS: HarnessState = HarnessState {
+    tag: std::sync::atomic::AtomicU64::new(0x6861_726e_6573_7321),
+    calls: [ZROW; 5],
+    exp: [ZROW; 5],
+    oracle: AtomicBool::new(false),
+    last_tag: [Z8; 5],
+    order_bad: AtomicBool::new(false),
+    drops: [Z8; DROP_SLOTS],
+    next_id: AtomicU8::new(0),
+};
+pub struct OracleFlag;
+pub static ORACLE: OracleFlag = OracleFlag;
+impl OracleFlag {
+    pub fn store(&self, v: bool, o: AO) {
+        HS.oracle.store(v, o)
+    }
+    pub fn load(&self, o: AO) -> bool {
+        HS.oracle.load(o)
+    }
+}
 
 /// record one call of the closure of `stage` on the element tagged `v & 7`
-pub static LAST_TAG: [AtomicU8; 5] = [Z8; 5];
-pub static ORDER_BAD: AtomicBool = AtomicBool::new(false);
 pub fn bump(stage: usize, v: u8) {
     let t = (v & 7) as usize;
     if ORACLE.load(AO::Relaxed) {
-        EXP[stage][t].fetch_add(1, AO::Relaxed);
+        HS.exp[stage][t].fetch_add(1, AO::Relaxed);
     } else {
-        CALLS[stage][t].fetch_add(1, AO::Relaxed);
+        HS.calls[stage][t].fetch_add(1, AO::Relaxed);
         // source order of the arguments of each stage (meaningful in sequential mode only)
-        if (t as u8) < LAST_TAG[stage].load(AO::Relaxed) {
-            ORDER_BAD.store(true, AO::Relaxed);
+        if (t as u8) < HS.last_tag[stage].load(AO::Relaxed) {
+            HS.order_bad.store(true, AO::Relaxed);
         }
-        LAST_TAG[stage].store(t as u8, AO::Relaxed);
+        HS.last_tag[stage].store(t as u8, AO::Relaxed);
     }
 }
 pub fn order_ok() -> bool {
-    !ORDER_BAD.load(AO::Relaxed)
+    !HS.order_bad.load(AO::Relaxed)
 }
 pub fn calls(stage: usize, t: usize) -> u8 {
-    CALLS[stage][t].load(AO::Relaxed)
+    HS.calls[stage][t].load(AO::Relaxed)
 }
 pub fn exp(stage: usize, t: usize) -> u8 {
-    EXP[stage][t].load(AO::Relaxed)
+    HS.exp[stage][t].load(AO::Relaxed)
 }
 pub fn total_calls() -> usize {
     let mut s = 0usize;
@@ -68,7 +95,7 @@ pub fn total_calls() -> usize {
     while i < 5 {
         let mut j = 0;
         while j < model::MAXN {
-            s += CALLS[i][j].load(AO::Relaxed) as usize;
+            s += HS.calls[i][j].load(AO::Relaxed) as usize;
             j += 1;
         }
         i += 1;
@@ -87,31 +114,27 @@ pub fn tagged<const N: usize>(r: [u8; N]) -> [u8; N] {
 }
 
 // drop-observing item type
-const ZD: AtomicU8 = AtomicU8::new(0);
-pub const DROP_SLOTS: usize = 3 * @MAXN@ + 2;
-pub static DROPS: [AtomicU8; DROP_SLOTS] = [ZD; DROP_SLOTS];
-pub static NEXT_ID: AtomicU8 = AtomicU8::new(0);
 pub struct D {
     pub id: u8,
     pub val: u8,
 }
 impl D {
     pub fn new(val: u8) -> D {
-        let id = NEXT_ID.fetch_add(1, AO::Relaxed);
+        let id = HS.next_id.fetch_add(1, AO::Relaxed);
         D { id, val }
     }
 }
 impl Drop for D {
     fn drop(&mut self) {
-        DROPS[self.id as usize].fetch_add(1, AO::Relaxed);
+        HS.drops[self.id as usize].fetch_add(1, AO::Relaxed);
     }
 }
 pub fn drops_all_once() -> bool {
-    let n = NEXT_ID.load(AO::Relaxed) as usize;
+    let n = HS.next_id.load(AO::Relaxed) as usize;
     let mut ok = true;
     let mut i = 0;
     while i < DROP_SLOTS {
-        if i < n && DROPS[i].load(AO::Relaxed) != 1 {
+        if i < n && HS.drops[i].load(AO::Relaxed) != 1 {
             ok = false;
         }
         i += 1;
